@@ -19,8 +19,8 @@ from . import engine as E
 from . import summaries as S
 
 VERIF = mirgen.VERIF
-EVIDENCE_DIR = os.path.join(VERIF, 'evidence')
-REPLAY_DIR = os.path.join(VERIF, 'replays')
+EVIDENCE_DIR = os.path.join(VERIF, 'evidence') if not mirgen.ALT_REPO else os.path.join(mirgen.SCRATCH, 'evidence')
+REPLAY_DIR = os.path.join(VERIF, 'replays') if not mirgen.ALT_REPO else os.path.join(mirgen.SCRATCH, 'replays')
 KNOWN_FINDINGS = os.path.join(VERIF, 'known_findings.json')
 
 NPROC = int(os.environ.get('VERIF_NPROC', '16'))
@@ -241,6 +241,19 @@ def build_replay(profile='release', cfg_env=None):
     if key in _replay_bin:
         return _replay_bin[key]
     from . import replaygen
+    crate_root = REPLAY_CRATE
+    if mirgen.ALT_REPO:
+        # copies of the replay crates whose path dependency points at the alternative repository
+        import shutil as _sh
+        for name in ('replay', 'replay_serde'):
+            dst = os.path.join(mirgen.SCRATCH, name)
+            if not os.path.exists(dst):
+                _sh.copytree(os.path.join(VERIF, name), dst, ignore=_sh.ignore_patterns('target'))
+                ct = os.path.join(dst, 'Cargo.toml')
+                txt = open(ct).read().replace('path = "/repo"', 'path = "%s"' % os.path.realpath(mirgen.REPO))
+                with open(ct, 'w') as fh:
+                    fh.write(txt)
+        crate_root = os.path.join(mirgen.SCRATCH, 'replay')
     replaygen.generate()
     serde = bool(cfg_env and cfg_env.get('VERIF_REPLAY_FEATURES') == 'serde')
     if serde:
@@ -259,7 +272,7 @@ def build_replay(profile='release', cfg_env=None):
     import fcntl
     fcntl.flock(lock, fcntl.LOCK_EX)
     try:
-        p = subprocess.run(cmd, cwd=REPLAY_CRATE + ('_serde' if serde else ''), env=env, stdout=subprocess.PIPE, stderr=subprocess.PIPE)
+        p = subprocess.run(cmd, cwd=crate_root + ('_serde' if serde else ''), env=env, stdout=subprocess.PIPE, stderr=subprocess.PIPE)
     finally:
         fcntl.flock(lock, fcntl.LOCK_UN)
     if p.returncode != 0:
